@@ -81,6 +81,7 @@ func readJSON(path string, v interface{}) error {
 }
 
 type checkRun struct {
+	bounded  []boundedResult
 	prop     string
 	tier     string
 	g        *Global
@@ -338,6 +339,11 @@ func cmdCheck(args []string) int {
 			seenKF[l] = true
 		}
 	}
+	// bounded stand-ins for functions outside the generator's reach (never counted as proved)
+	bounded, bviol := cr.runBounded()
+	cr.bounded = bounded
+	violLines = append(violLines, bviol...)
+	nViol += len(bviol)
 	for _, l := range violLines {
 		fmt.Println(l)
 	}
@@ -347,8 +353,16 @@ func cmdCheck(args []string) int {
 		nViol++
 	}
 	wall := time.Since(t0).Seconds()
-	fmt.Printf("rainvc %s %s: %d obligations, %d discharged, %d known findings, %d violations, %d covers (%d vacuous), load %.1fs frames %.1fs gen %.1fs solve %.1fs wall %.1fs\n",
-		*prop, *tier, nObl, discharged, len(seenKF), nViol, len(cr.covers), vacuous, g.loadS, g.frameS, genS, solveWall, wall)
+	btxt := ""
+	if len(cr.bounded) > 0 {
+		cases := 0
+		for _, b := range cr.bounded {
+			cases += b.Cases
+		}
+		btxt = fmt.Sprintf(", %d bounded stand-ins (%d cases, not counted as proved)", len(cr.bounded), cases)
+	}
+	fmt.Printf("rainvc %s %s: %d obligations, %d discharged, %d known findings, %d violations, %d covers (%d vacuous)%s, load %.1fs frames %.1fs gen %.1fs solve %.1fs wall %.1fs\n",
+		*prop, *tier, nObl, discharged, len(seenKF), nViol, len(cr.covers), vacuous, btxt, g.loadS, g.frameS, genS, solveWall, wall)
 	if !*noEvidence {
 		cr.writeEvidence(seed, nObl, discharged, nViol, len(seenKF), unledgered, solverTime, wall, kfLines)
 	}
